@@ -404,6 +404,17 @@ def parse_cases(path):
     return cases
 
 
+def _limit_child():
+    """A run-away harness (a mutated /repo can loop while allocating) must fail by itself instead of exhausting the
+    machine: 8 GiB of address space per process."""
+    import resource
+    lim = 8 << 30
+    try:
+        resource.setrlimit(resource.RLIMIT_AS, (lim, lim))
+    except (ValueError, OSError):
+        pass
+
+
 def run_parallel(cmds, timeout):
     """Runs shell commands in parallel (at most NCPU at a time). Returns list of (rc, output)."""
     res = [None] * len(cmds)
@@ -415,7 +426,8 @@ def run_parallel(cmds, timeout):
     while nxt < len(cmds) or procs:
         while nxt < len(cmds) and len(procs) < NCPU:
             p = subprocess.Popen(cmds[nxt], shell=True, stdout=subprocess.PIPE, stderr=subprocess.STDOUT,
-                                 universal_newlines=True, errors="replace", env=env)
+                                 universal_newlines=True, errors="replace", env=env,
+                                 start_new_session=True, preexec_fn=_limit_child)
             procs[nxt] = p
             nxt += 1
         done = [i for i, p in procs.items() if p.poll() is not None]
@@ -425,7 +437,10 @@ def run_parallel(cmds, timeout):
         if not done:
             if time.time() > t_end:
                 for i, p in procs.items():
-                    p.kill()
+                    try:
+                        os.killpg(p.pid, 9)      # the shell AND the harness / driver it started
+                    except OSError:
+                        p.kill()
                     res[i] = (124, "[timeout]")
                 procs = {}
                 break
